@@ -123,3 +123,27 @@ Section Seg.
     - unfold same_outcome. cbn. repeat split; auto. discriminate.
   Qed.
 End Seg.
+
+(* ---- session level: splitting any chunk of a history in two leaves the flattened trace unchanged ---- *)
+Section SessionSplit.
+  Variable lbehs : list (N * lbeh).
+
+  Theorem run_split s a b l1 b1 l2 b2 ops :
+    stable (rev (p_buf s)) -> p_disc s = false ->
+    feed (p_buf s) a = (l1, b1) -> feed b1 b = (l2, b2) ->
+    forallb line_fits (l1 ++ l2) = true -> line_fits b1 = true -> line_fits b2 = true ->
+    concat (run lbehs s (ORecv (a ++ b) :: ops)) = concat (run lbehs s (ORecv a :: ORecv b :: ops)).
+  Proof.
+    intros St D F1 F2 Hl Hb1 Hb2.
+    pose proof (data_received_split lbehs s a b l1 b1 l2 b2 St D F1 F2 Hl Hb1 Hb2) as (Ho & Hk & Hs).
+    cbn [run step]. unfold andthen in *.
+    destruct (data_received lbehs s (a ++ b)) as [[s12 o12] ok12].
+    destruct (data_received lbehs s a) as [[s1 o1] ok1].
+    destruct ok1.
+    - destruct (data_received lbehs s1 b) as [[s2 o2] ok2]. cbn [fst snd] in *. subst o12 ok12.
+      destruct ok2.
+      + rewrite (Hs eq_refl). cbn [concat]. now rewrite app_assoc.
+      + cbn [concat]. now rewrite !app_nil_r.
+    - cbn [fst snd] in *. subst o12 ok12. reflexivity.
+  Qed.
+End SessionSplit.
